@@ -403,6 +403,99 @@ def _xlit(v):
     return str(v)
 
 
+def _add_months(d, n):
+    import calendar
+    import datetime
+    y, m = divmod(d.year * 12 + d.month - 1 + n, 12)
+    m += 1
+    if not (1 <= y <= 9999):
+        return None
+    return datetime.date(y, m, min(d.day, calendar.monthrange(y, m)[1]))
+
+
+def date_case(args):
+    """DATE +/- INTERVAL of one field against the calendar: months (and years = 12 months) move the month and clamp the day to
+    the length of the target month *of the target year*, days move the day count. Month ends of leap and ordinary years and
+    carries across a year boundary are drawn on purpose. Each case is evaluated as a folded constant and per row over a table
+    (several dates in one batch), both against the model."""
+    import datetime
+    seed, idx, n = args
+    rng = random.Random(f"c14-date-{seed}-{idx}")
+    res = dict(violations=[], evals=0, judged=0, distinct=[], inconclusive=None, samples=[], unmodelled=0)
+    years = [1999, 2000, 2001, 2019, 2020, 2021, 2023, 2024, 2100, 1900, 1970, 1969]
+    def gen_date():
+        y = rng.choice(years)
+        m = rng.choice([1, 2, 2, 3, 10, 11, 12, 12, rng.randint(1, 12)])
+        import calendar
+        last = calendar.monthrange(y, m)[1]
+        dd = rng.choice([1, 28, 29, 30, 31, last, last, rng.randint(1, 28)])
+        return datetime.date(y, m, min(dd, last))
+    rl = RL("mem")
+    try:
+        dates = [gen_date() for _ in range(12)]
+        rl.sql("create table dt(id int, d date)")
+        r = rl.sql("insert into dt values " + ", ".join(f"({i}, DATE '{d.isoformat()}')" for i, d in enumerate(dates)) + ", (99, NULL)")
+        if not r["ok"]:
+            res["inconclusive"] = "setup failed"
+            return res
+        for _ in range(n):
+            unit = rng.choice(["month", "month", "month", "year", "day"])
+            k = rng.choice([1, 2, 3, 11, 12, 13, 14, 23, 24, 25, 48, rng.randint(1, 400)]) if unit != "year" else rng.choice([1, 3, 4, 100])
+            sign = rng.choice(["+", "+", "-"])
+            kk = k if sign == "+" else -k
+            def model(d):
+                if unit == "day":
+                    try:
+                        return d + datetime.timedelta(days=kk)
+                    except OverflowError:
+                        return None
+                return _add_months(d, kk * (12 if unit == "year" else 1))
+            # (1) per row over the table
+            sql = f"select id, d {sign} interval '{k}' {unit} from dt"
+            r = rl.sql(sql)
+            res["evals"] += 1
+            if not r["ok"]:
+                res["unmodelled"] += 1
+                continue
+            got = {row[0]: row[1] for row in r["rows"]}
+            bad = None
+            for i, d in enumerate(dates):
+                w = model(d)
+                if w is None:
+                    continue
+                if got.get(i) != "D:" + w.isoformat():
+                    bad = (d, w, got.get(i))
+                    break
+            if got.get(99, "x") is not None:
+                bad = bad or ("NULL", None, got.get(99))
+            res["judged"] += 1
+            res["distinct"].append(h([unit, kk, [d.isoformat() for d in dates]]))
+            if bad:
+                res["violations"].append(dict(signature=f"date-arithmetic:wrong-result:{unit}", sql=sql,
+                                              what=f"{sql}: DATE '{bad[0]}' {sign} {k} {unit} = {bad[2]}, the calendar says {bad[1]}"))
+                continue
+            # (2) as a constant (folded by the optimizer)
+            d = rng.choice(dates)
+            w = model(d)
+            if w is None:
+                continue
+            sql = f"select DATE '{d.isoformat()}' {sign} interval '{k}' {unit}"
+            r = rl.sql(sql)
+            res["evals"] += 1
+            if r["ok"] and r["rows"] and r["rows"][0][0] != "D:" + w.isoformat():
+                res["violations"].append(dict(signature=f"date-arithmetic:wrong-constant:{unit}", sql=sql,
+                                              what=f"{sql} = {r['rows'][0][0]}, the calendar says {w}"))
+            elif r["ok"]:
+                res["judged"] += 1
+        if len(res["samples"]) < 1:
+            res["samples"].append(dict(date_arithmetic=sql))
+    except Exception as e:
+        res["inconclusive"] = f"harness: {type(e).__name__}: {e}"
+    finally:
+        rl.close()
+    return res
+
+
 def rowiso_case(args):
     seed, idx, n = args
     rng = random.Random(f"c14-rowiso-{seed}-{idx}")
@@ -628,6 +721,21 @@ def run(tier, seed):
                         rowiso_sql_boolean_expressions_compared_as_filter=xfilt)
     rep.floor("row-isolation SQL leg: boolean expressions also run as a filter (WHERE e / WHERE NOT e)", xfilt, nx * 2)
     rep.floor("row-isolation SQL leg: expressions judged", len(xs), nx * 8)
+    nd = 12 if tier == "quick" else 150
+    dj = 0
+    dset = set()
+    for res in parallel_map(date_case, [(seed, i, nd) for i in range(16)]):
+        rep.evaluations += res["evals"]
+        dj += res["judged"]
+        dset.update(res["distinct"])
+        if res["inconclusive"]:
+            rep.inc("date leg: " + res["inconclusive"][:50])
+        for s_ in res["samples"]:
+            rep.sample(s_, limit=12)
+        for v in res["violations"]:
+            rep.add_violation(Violation(v["signature"], v["what"], dict(sql=v["sql"], signature=v["signature"], date_leg=True)))
+    rep.coverage["date_interval_statements_judged_against_the_calendar"] = dj
+    rep.floor("date +/- interval statements judged against the calendar", dj, nd * 16)
     run_sentinels(rep, sentinel)
     rep.evaluations += rows + iso["rows"]
     rep.distinct = len(combos) + len(folds) + len(preds) + len(iso["combos"]) + len(xs)
